@@ -38,6 +38,7 @@ func runC07(c *Ctx) {
 	c.Explanation = "Decides: (R-RING-NORM) by abstract interpretation of package queue over intervals whose bounds are linear in L = len of the current ring buffer (every root method analysed twice: L = 0 and L ≥ 1; loop-free methods path by path, methods with loops by a joined fixpoint; the fields head and n are tracked through stores, branches are pruned and refined, buffer growth re-expresses all bounds with L' ≥ L+1, helper, predicate and getter methods of the same queue are followed): every index into the buffer lies in [0, L−1], every slice of it within [0, L], and every return re-establishes 0 ≤ n ≤ L and 0 ≤ head ≤ max(L−1, 0) — the inductive step of the ring invariant, which the zero value and the constructors establish (checked: constructors store nothing but 0 to head and n). Bit masks are not accepted as a wrap. On every path that neither grows nor rotates the buffer, the residue class mod L of each touched slot and of the final head, and the final n, are compared with the ring-deque specification of the exported method (Add writes head+n; Push writes head−1 and moves head there; Pop reads head and advances it; PopLast reads head+n−1; Front reads head; Peek(i) reads head+i or head+n+i; Each/Slice walk from head in steps of one). (R-GROW-ROTATE) the buffer grows only with head = 0, established by the false edge of head > 0 or by slice.Rotate(vs, −head) followed by head = 0. (R-DIV-NONZERO) every % or / by len(q.vs) is reached only with L ≥ 1. (R-YIELD) Each is stoppable. At the append that grows the buffer n must be exactly the buffer length and head exactly 0, so that the appended cell is logical position n; the slot classes then continue in the grown buffer. (R-SLICE-LEN) the slice Queue.Slice returns has, as a linear form over head, n and the buffer length, exactly n elements. Does NOT decide how many elements Each visits, which elements a bulk copy takes beyond their number, Rotate's own correctness, nor that the contents equal the reference deque over arbitrary histories."
 	c.rule("R-RING-NORM", 20, "every index into q.vs within [0, L-1] and at the slot the deque semantics prescribes (mod L, no-growth paths); every slice within [0, L]; at every return 0 <= n <= L, 0 <= head <= max(L-1, 0), and head/n changed as the method's specification says; constructors start from head = n = 0")
 	ruleEmptyAgreesLen(c, "queue", "Queue")
+	ruleSizeGuard(c, "queue")
 	c.rule("R-GROW-ROTATE", 1, "every path to the growth append has head == 0 (branch fact, or Rotate(vs, -head) then head = 0)")
 	c.rule("R-DIV-NONZERO", 0, "every % in package queue has divisor len(q.vs) reached only with a non-empty buffer")
 	c.rule("R-YIELD", 1, "Queue.Each stops calling f once it returned false")
